@@ -105,6 +105,20 @@ theorem C03_dict_layer_ragged {ι : Type} (K : LeafClass) (r w : Nat) (data : Li
       ∀ i (hi : i < data.length), c.entry i = (data[i]).2.lookup name :=
   dictPropToArr_ragged K r w data name h
 
+/-- **C03 (dict layer, `None` entries — repair C03-06)**: `None` is none of the five kinds; next to
+list values the library's convention (`construct_var_len_props`) is that it marks a missing value.
+For a property whose non-`None` present values are ragged-domain lists (at least one) and whose
+other elements lack the attribute or hold `None`, in any combination, `dict_props_to_arr` builds
+one variable-length column in which an element is flagged missing iff it lacks the attribute
+**or** holds `None` (`shown`), and every list reads back exactly. -/
+theorem C03_dict_layer_none {ι : Type} (K : LeafClass) (r w : Nat) (data : List (ι × Attrs)) (name : String)
+    (h : RaggedVals K r w ((present data name).filter (fun x => !x.isNone)))
+    (harr : ∃ x ∈ present data name, x.isArr = true)
+    (hnone : ∃ x ∈ filledValues data name, x.isNone = true) :
+    ∃ c, dictPropToArr data name = .ok c ∧ c.WF data.length ∧
+      ∀ i (hi : i < data.length), c.entry i = shown ((data[i]).2.lookup name) :=
+  dictPropToArr_none K r w data name h harr hnone
+
 /-! ## networkx round trip -/
 
 /-- `geff.write(graph, store)` then `geff.read(store, backend=…)` with the store abstracted:
@@ -383,6 +397,24 @@ model leaves its domain (numpy promotes the stacked position) -/
 example : (sgConstruct { exSg with nodeProps := ("t", ⟨.i64, false, [([], [.i 0]), ([], [.i 1])], none⟩) :: exSg.nodeProps }
     (some ["t", "x"])).map (fun _ => ()) = .error (.unmodelled "axes of different dtypes are promoted") := by
   decide
+
+/-- non-vacuity of the `None` theorem, and the case a seeded change broke: one element lacks the
+attribute, another holds `None`, a third a list — both are flagged missing, the list reads back -/
+def exNone : List (Int × Attrs) :=
+  [(7, []), (3, [("p", .none)]), (40, [("p", .arr [2] [.f "0000000000002540", .f "0000000000002740"])])]
+
+example : RaggedVals .float 1 1 ((present exNone "p").filter (fun x => !x.isNone)) := by
+  refine ⟨by decide, by decide, ?_⟩
+  intro x hx
+  simp only [present, exNone, List.filterMap_cons, lookup_cons_ite] at hx
+  simp [PyVal.isNone] at hx
+  subst hx
+  exact ⟨[2], _, rfl, rfl, by decide, Or.inl (by simp), by decide⟩
+example : ∃ x ∈ present exNone "p", x.isArr = true := ⟨.arr [2] [.f "0000000000002540", .f "0000000000002740"], by decide, rfl⟩
+example : ∃ x ∈ filledValues exNone "p", x.isNone = true := ⟨.none, by decide, rfl⟩
+example : (dictPropToArr exNone "p").toOption.map (fun c => (c.missing, c.entry 0, c.entry 1, c.entry 2)) =
+    some (some [true, true, false], none, none,
+          some (.arr [2] [.f "0000000000002540", .f "0000000000002740"])) := by decide
 
 /-- D2 as it was before the repair: with the old fill (int `0` for a bool) numpy's inference on
 `[True, 0]` is int64 and `True` is stored as the integer 1 — the kind changes.  This is the fact
